@@ -70,6 +70,28 @@ class Eval:
         self.evals = evals      # number of executions against the code under test
 
 
+def evaluate(arm, case):
+    """arm.evaluate(case); an exception that escapes the check's own handling and was raised INSIDE the library under test
+    (innermost frame in <repo>/lib) is what the library did to this case: it is reported as a violation with a replay file.
+    Any other escaping exception is a defect of the harness and propagates (exit 2)."""
+    try:
+        return arm.evaluate(case)
+    except (KeyboardInterrupt, SystemExit, MemoryError):
+        raise
+    except BaseException as e:
+        tb = e.__traceback__
+        inner = None
+        while tb is not None:
+            inner = tb.tb_frame.f_code
+            tb = tb.tb_next
+        lib = os.path.realpath(os.path.join(REPO, "lib")) + os.sep
+        if inner is None or not os.path.realpath(inner.co_filename).startswith(lib) or isinstance(e, RecursionError):
+            raise
+        key = "library-raised-unexpectedly:%s@%s:%s" % (type(e).__name__, os.path.basename(inner.co_filename), inner.co_name)
+        return Eval([Failure(key, "%s: %s" % (type(e).__name__, safe_repr(str(e), 300)))], ["evaluation-raised-in-library"],
+                    nontrivial=True, ident=safe_repr(case, 2000))
+
+
 class Arm:
     def __init__(self, name, evaluate, strategy=None, quick=0, thorough=0, enum=None,
                  exhaustive=False, shards=None, describe=None, weight=1.0):
@@ -174,7 +196,7 @@ def run_shard(prop, arm_name, tier, k, nshards, n, seed):
     t0 = time.time()
     if arm.enum is not None:
         for case in arm.enum(k, nshards, tier):
-            col.add(arm, case, arm.evaluate(case))
+            col.add(arm, case, evaluate(arm, case))
     else:
         from hypothesis import given, seed as hseed
         strat = arm.strategy()
@@ -183,7 +205,7 @@ def run_shard(prop, arm_name, tier, k, nshards, n, seed):
         @_hyp_settings(n)
         @given(strat)
         def body(case):
-            col.add(arm, case, arm.evaluate(case))
+            col.add(arm, case, evaluate(arm, case))
         body()
     res = col.result()
     res["wall"] = time.time() - t0
@@ -208,7 +230,7 @@ def shrink_worker(prop, arm_name, tier, n, seed, key, outpath):
     @_hyp_settings(n, shrink=True)
     @given(arm.strategy())
     def body(case):
-        ev = arm.evaluate(case)
+        ev = evaluate(arm, case)
         for f in ev.failures:
             if f.key == key:
                 size = _case_size(case)
@@ -279,7 +301,7 @@ def replay(prop, path):
     tier = rec.get("tier", "quick")
     arm = {a.name: a for a in mod.arms(tier)}[rec["arm"]]
     case = pickle.loads(base64.b64decode(rec["case_pickle_b64"]))
-    ev = arm.evaluate(case)
+    ev = evaluate(arm, case)
     known = {r["key"] for r in load_known(prop) if r.get("status") == "open"}
     kc = getattr(mod, "known_class", None)
     bad = 0
@@ -312,7 +334,7 @@ def run_regress(mod, prop, tier):
         if arm is None:
             continue
         case = pickle.loads(base64.b64decode(rec["case_pickle_b64"]))
-        ev = arm.evaluate(case)
+        ev = evaluate(arm, case)
         n += 1
         out.append((os.path.join(d, name), arm, case, ev))
     return out, n
